@@ -101,8 +101,8 @@ CLAIMS = {
             "Decides (R27) that every object whose address is used as a map key is kept alive on every path: the necessary condition whose absence corrupted 119/200 random trees before the fix; and (R27b) that each converted pair is built from the converted nodes of its own left and right child, in this order, de-duplicated and stored under exactly that key, recorded under its own address, atoms from their own bytes, children scheduled iff their own address is unknown, result = the node of the object passed in. Not that Python's attribute protocol returns consistent values.",
             "Trusts rustc's elaborated MIR (a moved local has no drop) and pyo3's Bound::clone being a strong reference.",
             "DESIGN.md 4/C27"),
-    "C28": ("Python ast table extraction compared with tables extracted from Rust MIR (writer rows, decoder caps, wire constants)",
-            "Decides that the pure-Python codec's tables equal the Rust codec's: writer rows, single-byte rule, reader rejections (prefix-length cap, size cap, truncation), wire constants, integer conversion shape. Not casts/curry/uncurry/run-of-curried.",
+    "C28": ("Python ast table extraction compared with tables extracted from Rust MIR (writer rows, decoder caps, wire constants); writer/reader shape agreement between curry and uncurry derived from curry's list literals",
+            "Decides that the pure-Python codec's tables equal the Rust codec's: writer rows, single-byte rule, reader rejections (prefix-length cap, size cap, truncation), wire constants, integer conversion shape; and that uncurry tests and takes apart exactly the shape curry builds, on the program and on every level (R28f). Not curry_hash, nor running a curried program.",
             "Trusts Python's ast module and the Rust-side extraction of C15; behaviour of CPython int.to_bytes/from_bytes is assumed.",
             "DESIGN.md 4/C28"),
     "C29": ("error-discipline rule over every io::Write call site reachable from the *_limit entry points (resolved callees, closure bodies, From impl summary) + linear normalisation of the limiter test + routing of the Ok value",
